@@ -145,6 +145,16 @@ def check_history(ctx, c):
     _, _, bad = call(est, "transform", c2, "test")
     if bad:
         return
+    if name in ("Wasserstein", "Sinkhorn") and p.get("input_method", "spmatrix") == "spmatrix":
+        # same measures over a *different vector table of the same shape* (support points permuted with their vectors)
+        rp = ctx.rng("perm", sg)
+        perm = list(range(c["npts"]))
+        rp.shuffle(perm)
+        inv = {old: new for new, old in enumerate(perm)}
+        c3 = dict(c, vectors=[c["vectors"][old] for old in perm], test=[[[inv[j], v] for j, v in row] for row in c["train"]])
+        _, _, bad = call(est, "transform", c3, "test")
+        if bad:
+            return
     o1b, e1b, bad = call(est, "transform", c1, "test")
     if bad:
         return
